@@ -50,7 +50,8 @@ func New(pcapDir, indexDir, snapshotDir string, cachedKnownPcaps []*pcapmetadata
 		return nil, err
 	}
 	for _, p := range pcaps {
-		if p.IsDir() || (!strings.HasSuffix(p.Name(), ".pcap") && !strings.HasSuffix(p.Name(), ".pcapng")) {
+		// every name that can be imported: also dump.pcap1, dump.pcap2, ... of a rotating capture in the watched directory
+		if p.IsDir() || !strings.HasPrefix(filepath.Ext(p.Name()), ".pcap") {
 			continue
 		}
 		pInfo, err := p.Info()
